@@ -541,6 +541,14 @@ pub fn c11(seed: u64, thorough: bool) -> Scenario {
         let client = b.r.below(3);
         b.sc.events.push(TimedEvent { t_us: t, kind: EventKind::Tx { client, node, len, first, uid } });
     }
+    // A peer-side batch in a non-canonical encoding (trailing bytes) to one or two nodes: it
+    // must be stored and announced under the hash of the bytes actually received.
+    let k = b.r.range(1, 2);
+    for q in 0..k {
+        let node = b.r.below(b.sc.n);
+        let t = b.r.range(300_000, dur - 2_500_000);
+        b.sc.events.push(TimedEvent { t_us: t, kind: EventKind::Hostile { from: 40 + q as usize, node, svc: SVC_MEMPOOL, gen: (37u64 << 40) | q } });
+    }
     b.tokio_knobs();
     b.finish()
 }
@@ -582,7 +590,28 @@ pub fn c13(seed: u64, thorough: bool) -> Scenario {
     // A node misses batch broadcasts: its mempool links are cut for a while (batches to it are
     // cancelled once a quorum acknowledged them), possibly also towards the proposer afterwards.
     // One node at a time (the others still form a quorum, so no view change is provoked).
-    let k = b.r.range(0, 2);
+    // Unresponsive first sync targets for good: from early on, all peers but one or two can no
+    // longer reach node j's mempool port (it misses their batch broadcasts and never gets their
+    // replies), while j's own connections work. Every batch of theirs must reach j through the
+    // retries to `sync_retry_nodes` randomly chosen peers, which have to hit a peer that can answer.
+    let one_way = b.r.chance(0.25);
+    if one_way {
+        let j = b.r.below(b.sc.n);
+        let mut others: Vec<usize> = (0..b.sc.n).filter(|i| *i != j).collect();
+        b.r.shuffle(&mut others);
+        let keep = if b.sc.n >= 5 && b.r.chance(0.5) { 2 } else { 1 };
+        let mut cut = 0u64;
+        for i in others.iter().skip(keep) {
+            cut |= bit(*i);
+        }
+        let t0 = b.r.range(100_000, 600_000);
+        b.sc.net.rules.push(Rule { t0_us: t0, t1_us: FOREVER, src: cut, dst: bit(j), bidir: false, svc_mask: 1 << SVC_MEMPOOL, kind: RuleKind::Block, reply_only: false, label: "miss-batch-one-way".into() });
+        let nodes = b.r.range(1, (b.sc.n - 2) as u64) as usize;
+        for p in b.sc.params.iter_mut() {
+            p.sync_retry_nodes = nodes;
+        }
+    }
+    let k = if one_way { 0 } else { b.r.range(0, 2) };
     let mut t_free = 100_000u64;
     for _ in 0..k {
         if t_free + 300_000 >= load_end {
